@@ -100,7 +100,8 @@ def gen_session(rng, kind):
             evs.append(rng.choice(["up:1", "down:1", "toggle", "selall"]))
     if kind == "c05":
         evs.append(rng.choice(["idle", "wait:500", ""]))
-        evs.append(rng.choice(["accept", "accept", "abort", "accept:%s" % enc("ctrl-x")]))
+        evs.append(rng.choice(["accept", "accept", "abort", "accept:%s:%s" % (enc("ctrl-x"), enc("ctrl-x")), "accept::%s" % enc("enter"),
+                               "accept:%s:%s" % (enc("alt-a"), enc("alt-a"))]))
     rules = "-"
     if rng.random() < 0.25:
         rules = rng.choice(RACE_RULES)
@@ -217,13 +218,13 @@ def _post(case, impl):
         return None
 
     def snap_tok(l):
-        mm = re.match(r"loop\.end list=(\S*) sel=(\S*) nopt=(\d+) mc=(\w+) clear=(\w+) cur=(\d+) run=(\d+) pool=(\d+)/(\d+) rdone=(\w+) re=(\w+) q=\"(.*)\"$", l)
+        mm = re.match(r"loop\.end list=(\S*) sel=(\S*) nopt=(\d+) mc=(\w+) clear=(\w+) cur=(\d+) run=(\d+) pool=(\d+)/(\d+) rdone=(\w+) re=(\w+) cq=\"(.*)\" q=\"(.*)\"$", l)
         lst = [int(x) for x in mm.group(1).split(",") if x]
         sel = mm.group(2) or "_"
         mc = mm.group(4) == "true"
         clear = {"DontClear": "D", "Clear": "C", "ClearIfNotNull": "N"}[mm.group(5)]
         quiet = (mm.group(10) == "true") and (not mc) and mm.group(8) == mm.group(9)
-        info = dict(list=lst, cur=int(mm.group(6)), run=int(mm.group(7)), q=mm.group(12), re=mm.group(11) == "true")
+        info = dict(list=lst, cur=int(mm.group(6)), run=int(mm.group(7)), q=mm.group(13), cq=mm.group(12), re=mm.group(11) == "true")
         return "SNAP %s %s %d %s %d" % (",".join(str(x) for x in sorted(lst)) or "_", sel, int(mc), clear, int(quiet)), info
 
     pos = 0
@@ -276,6 +277,14 @@ def _post(case, impl):
         info = None
         if end is not None:
             snap, info = snap_tok(trace[end])
+        # the editing event itself (drives the Lean editor model for C05's "query exactly as edited")
+        mm = re.match(r"EvActAddChar\('(.)'\)", ev)
+        if mm:
+            toks.append("EV add:%d" % ord(mm.group(1)))
+        elif ev == "EvActBackwardDeleteChar":
+            toks.append("EV bdel")
+        elif ev == "EvActToggleInteractive":
+            toks.append("EV ti")
         # the handler token
         if ev == "EvHeartBeat":
             def rd(pat):
@@ -332,6 +341,7 @@ def _post(case, impl):
         if snap:
             toks.append(snap)
             prev_snap[0] = info
+            toks.append("CUR %s" % (info["list"][info["cur"]] if info["cur"] < len(info["list"]) else "x"))
         pos = e + 1 if end is not None else e
     for l in trace[pos:]:
         t = foreign(l)
@@ -339,4 +349,46 @@ def _post(case, impl):
             toks.append(t)
     if "idle-timeout" in trace or out == "hang":
         toks.append("IDLEFAIL")
-    return ";".join(toks) + ";OUT " + out.replace(";", ",")
+    toks.append(out_token(out, events, opts))
+    return ";".join(toks)
+
+
+KEYDBG = {"ctrl-x": "Ctrl('x')", "enter": "Enter", "alt-a": "Alt('a')", "": "Null"}
+
+
+def out_token(out, events, opts):
+    """OUT abort=<b> ev=<accept|abort|none> arg=<enc|none> key=<debug> query=<enc> cmd=<enc> items=<ids> ptr=<b>
+           want_arg=<enc|none|any> want_key=<debug|any> init_q=<enc> inter=<b>"""
+    if not out.startswith("abort="):
+        return "OUT " + out.replace(" ", "_").replace(";", ",")
+    f = dict(kv.split("=", 1) for kv in out.split(" "))
+    ev = f["event"]
+    if ev.startswith("EvActAccept"):
+        kind = "accept"
+        mm = re.match(r'EvActAccept\(Some\("(.*)"\)\)', ev)
+        arg = enc(mm.group(1)) if mm else "none"
+    elif ev == "EvActAbort":
+        kind, arg = "abort", "none"
+    else:
+        kind, arg = "other", "none"
+    ids = []
+    for t in [x for x in f["items"].split(",") if x and x != "_"]:
+        text = dec(t)
+        mm = re.match(r".*-(\d+)\.(\d+)$", text)
+        ids.append(str(int(mm.group(1)) * 100000 + int(mm.group(2))) if mm else "999999999")
+    ptr = "1" if all(x == "1" for x in f["ptr"].split(",") if x != "_") else "0"
+    want_arg, want_key = "any", "any"
+    last = events[-1] if events else ""
+    if last.startswith("accept"):
+        ps = last.split(":")
+        want_arg = ps[1] if len(ps) > 1 and ps[1] else "none"
+        want_key = KEYDBG.get(dec(ps[2]) if len(ps) > 2 else "", "any")
+    elif last == "abort":
+        want_arg, want_key = "none", "Null"
+    init_q = "-"
+    for o in opts:
+        if o.startswith("q="):
+            init_q = o[2:]
+    return "OUT abort=%d ev=%s arg=%s key=%s query=%s cmd=%s items=%s ptr=%s want_arg=%s want_key=%s init_q=%s inter=%d last=%s" % (
+        int(f["abort"] == "true"), kind, arg, f["key"], f["query"], f["cmd"], ",".join(ids) or "_", ptr,
+        want_arg, want_key, init_q, int("interactive" in opts), (last.split(":")[0] or "none"))
